@@ -68,7 +68,9 @@ def _case(draw):
             # units may have tables of different sizes: a broadcast can be legal for one unit and not for another
             'sizes': [draw(st.sampled_from([40, 40, 21, 6, 39])) for _ in hosted],
             # stream front-ends: the request stream may arrive cut at arbitrary byte positions
-            'cuts': draw(st.one_of(st.none(), st.none(), gens.cuts())) if fe in frontends.STREAM else None}
+            'cuts': draw(st.one_of(st.none(), st.none(), gens.cuts())) if fe in frontends.STREAM else None,
+            # some units leave their tables to the library default (ModbusSlaveContext() builds them itself)
+            'default_tables': draw(st.sampled_from([False, False, False, True]))}
 
 
 def strategy(tier):
@@ -109,6 +111,13 @@ def run_case(case):
     units = [0] if single else list(hosted)
     sizes = case.get('sizes') or [40] * len(units)
     lays = dict((u, _layout(sizes[i % len(sizes)])) for i, u in enumerate(units))
+    window = None
+    if case.get('default_tables'):
+        labels.append('default-tables')
+        window = set(range(0, 140))
+        for i, u in enumerate(units):
+            if i % 2 == 0 or len(units) <= 2:
+                lays[u] = {'zero_mode': True, 'share': None, 'tables': dict((k, {'shape': 'default'}) for k in 'cdhi')}
     from pymodbus.datastore import ModbusServerContext
     if single:
         ctx = ModbusServerContext(slaves=model.make_slave(lays[0], Counting), single=True)
@@ -171,10 +180,11 @@ def run_case(case):
     # ---- datastore: every unit equals its model
     for u in units:
         slave = ctx[u]
-        if model.norm_dump(model.dump_slave(slave)) != model.norm_dump(models[u].dump()):
+        real_d = model.norm_dump(model.dump_slave(slave, window))
+        model_d = model.norm_dump(model.dump_model(models[u], window))
+        if real_d != model_d:
             discs.append(Disc('unit-state', '%s/%s hosted %r bcast=%s: unit %d tables differ from the model: %s' % (
-                fe, framing, hosted if not single else 'single', bcast, u,
-                c04._diff(model.norm_dump(model.dump_slave(slave)), model.norm_dump(models[u].dump()))), _kf(case)))
+                fe, framing, hosted if not single else 'single', bcast, u, c04._diff(real_d, model_d)), _kf(case)))
             break
         # "exactly once" is stated for broadcast writes; for unicast writes only "at least the model's writes" is required
         if (slave.set_calls != exp_sets[u]) if only_broadcast_writes else (slave.set_calls < exp_sets[u]):
